@@ -1415,8 +1415,9 @@ impl DbInner {
 			if let Some(err) = self.bg_err.lock().as_ref() {
 				// On error the log reader may be left in inconsistent state. So it is important
 				// to no attempt any further log enactment.
+				// Nor to reclaim any log: an older one may have been left behind by the failure,
+				// and replay needs every log that follows it.
 				log::debug!(target: "parity-db", "Shutdown with error state {}", err);
-				self.log.clean_logs(self.log.num_dirty_logs())?;
 				return Ok(())
 			}
 		}
